@@ -352,6 +352,14 @@ func (w *World) onApplied(n *Node, e *blockEntry, au consensus.ApplyUpdate, firs
 		for _, d := range au.V2FileContractElementDiffs() {
 			touched = append(touched, d.V2FileContractElement.StateElement.LeafIndex)
 		}
+		// ... and every leaf the block added, whatever it holds (attestations
+		// and the block's own chain index entry have no diff of their own)
+		if pe := n.blocks[e.parent]; pe != nil && pe.applied && e.height > 0 {
+			for i := pe.state.Elements.NumLeaves; i < l.Forest.N(); i++ {
+				touched = append(touched, i)
+			}
+			w.stats.Inc("probe.tree-nodes-new-leaves")
+		}
 		w.checkUpdateNodes("apply", n, e, l.Forest, au.ForEachTreeNode, touched...)
 		// every element the update reports carries the proof a store would keep
 		report := func(kind string, id [32]byte, se types.StateElement) {
